@@ -9,7 +9,7 @@ use super::lex::{concretise_src, tokens_json};
 
 const SINGLE: &[&str] = &[
     "x", "y", "s", "r", "e", "n", "i", "t", "a", "X", "S", "A", "1", "0", "5", ".", ",", " ", " ", " ", "\n", "\n", "'", "\"",
-    "(", ")", "-", "+", "*", "/", "_", "<", ">", "=", "&", "!", "?", ";", ":", "\t", "\r", "~", "^", "%", "$", "@", "`", "#", "|",
+    "(", ")", "-", "+", "*", "/", "_", "<", ">", "=", "&", "!", "?", ";", ":", "\t", "\r", "~", "^", "%", "$", "@", "`", "#", "|", "\\",
 ];
 const FRAGS: &[&str] = &[
     "say ", "put ", " into ", "let ", " be ", "if ", "else", "while ", "'s ", "'re ", "'n'", "it's ", "ain't ", "\"a\nb\"", "\"x\"'s",
